@@ -11,6 +11,14 @@ import vlib
 KINDS = {"none": 1, "leapfrog": 0, "whfast": 0, "saba": 1, "eos": 1, "janus": 1, "sei": 0}
 
 
+def jsafe(o):
+    """non-finite floats as strings: evidence and replay files stay standard JSON"""
+    if isinstance(o, float) and (o != o or o in (float("inf"), float("-inf"))): return repr(o)
+    if isinstance(o, dict): return {k: jsafe(v) for k, v in o.items()}
+    if isinstance(o, (list, tuple)): return [jsafe(v) for v in o]
+    return o
+
+
 def ulp_shift(x, k):
     b = struct.unpack("<q", struct.pack("<d", x))[0]
     return struct.unpack("<d", struct.pack("<q", b + k))[0]
@@ -57,7 +65,17 @@ def gen_case(rng):
     if rng.random() < 0.35:
         # k = 0: the exit condition is already true when integrate() is entered (the entry heartbeat raises it)
         events.append((rng.choice([0, 0, 1, 2]) if rng.random() < 0.4 else rng.randint(1, 10), rng.choice([5, 4, 3, 7])))
-    return {"integrator": integ, "t0": t0, "dt": dt, "targets": targets, "exact": exact, "events": events}
+    if rng.random() < 0.04:
+        # degenerate arguments: no step can bring t closer to the target; integrate() must refuse, not run forever
+        r = rng.random()
+        if r < 0.4: dt = 0.0
+        elif r < 0.7: dt = float("nan")
+        else: targets[rng.randrange(len(targets))] = float("nan")
+    gone = None
+    if rng.random() < 0.2:
+        # the simulation loses its last particle at the boundary after `gone` steps (0: it is empty on entry)
+        gone = rng.choice([0, 0, 1, 2]) if rng.random() < 0.4 else rng.randint(1, 10)
+    return {"integrator": integ, "t0": t0, "dt": dt, "targets": targets, "exact": exact, "events": events, "gone": gone}
 
 
 def run_lib(rebound, c):
@@ -66,10 +84,14 @@ def run_lib(rebound, c):
     steps0 = sim.steps_done
     # step cap: a library that never reaches the target must end as a mismatch with a concrete input, not as a hang
     tprev = [c["t0"]] + list(c["targets"])
-    cap = int(sum(abs(b - a) for a, b in zip(tprev, tprev[1:])) / abs(c["dt"])) + 4 * len(c["targets"]) + 8
+    deg = c["dt"] == 0 or c["dt"] != c["dt"] or any(x != x for x in c["targets"])
+    cap = 8 if deg else int(sum(abs(b - a) for a, b in zip(tprev, tprev[1:])) / abs(c["dt"])) + 4 * len(c["targets"]) + 8
+    gone = c.get("gone")
     def hb(simp):
         s = simp.contents
         k = s.steps_done - steps0
+        if gone is not None and k >= gone and s.N > 0:
+            rebound.clibrebound.reb_simulation_remove_all_particles(simp)
         if k in ev and s._status < 0:
             s._status = ev[k]
         elif k > cap and s._status < 0:
@@ -90,8 +112,9 @@ def run_lib(rebound, c):
 def coq_case(c, got):
     ev = "[" + "; ".join("(%d%%nat, %d%%Z)" % (k, v) for k, v in c["events"]) + "]"
     tg = vlib.flist(c["targets"])
-    term = "(run_seq %d %s %s %s %s 0 600 %s)" % (KINDS[c["integrator"]], ev, "true" if c["exact"] else "false",
-                                                 vlib.fhex(c["t0"]), vlib.fhex(c["dt"]), tg)
+    gone = "None" if c.get("gone") is None else "(Some %d%%nat)" % c["gone"]
+    term = "(run_seq_np %d %s %s %s %s %s 0 600 %s)" % (KINDS[c["integrator"]], ev, gone, "true" if c["exact"] else "false",
+                                                       vlib.fhex(c["t0"]), vlib.fhex(c["dt"]), tg)
     exp = "(%s, (%d)%%Z, %d%%nat)" % (vlib.flist(got[0]), got[1], got[2])
     return "(%s, %s)" % (term, exp)
 
@@ -111,20 +134,27 @@ def run(ctx):
         c = gen_case(rng)
         if c["events"] and rng.random() < 0.6:
             # aim the event at the LAST step of the run (the shortened one under exact finishing)
-            c0 = dict(c, events=[], targets=c["targets"][:1])
+            c0 = dict(c, events=[], gone=None, targets=c["targets"][:1])
             nsteps = run_lib(rebound, c0)[2]
             if nsteps >= 1:
                 c["events"] = [(nsteps - rng.choice([0, 0, 0, 1]) or 1, c["events"][0][1])]
                 c["targets"] = c["targets"][:1]
+        if c["gone"] is not None and rng.random() < 0.6:
+            # ... and the loss of the last particle at the boundary where the target is reached (SUCCESS and NO_PARTICLES
+            # become true together), or one boundary earlier
+            c0 = dict(c, events=[], gone=None, targets=c["targets"][:1])
+            nsteps = run_lib(rebound, c0)[2]
+            c["gone"] = max(0, nsteps - rng.choice([0, 0, 0, 1]))
+            if rng.random() < 0.5: c["targets"] = c["targets"][:1]
         # the model's run_seq continues a split only through SUCCESS; the library likewise (we break on status != 0)
         got = run_lib(rebound, c)
         if len(c["targets"]) > 1 and got[1] != 0:
             c["targets"] = c["targets"][:1]; got = run_lib(rebound, c)
         cases.append((c, got))
-        key = (c["integrator"], c["exact"], len(c["targets"]), bool(c["events"]), got[1])
+        key = (c["integrator"], c["exact"], len(c["targets"]), bool(c["events"]), c["gone"] is not None, got[1])
         hist[key] = hist.get(key, 0) + 1
         ctx.case(key=(c["integrator"], c["exact"], got[1], got[2], len(c["targets"])),
-                 sample={"case": c, "library": got} if len(cases) <= 3 else None)
+                 sample=jsafe({"case": c, "library": got}) if len(cases) <= 3 else None)
     jobs = []; chunk = 100
     for c0 in range(0, len(cases), chunk):
         body = ("From Coq Require Import ZArith List Bool PrimFloat.\nFrom RV Require Import C08.Run.\nImport ListNotations.\n"
@@ -140,7 +170,7 @@ def run(ctx):
             bad_total += [c0 + b for b in bad]
     ctx.traces = len(cases) if corr_ok else 0
     ctx.obligation("correspondence:C08 integrate model(binary64) == library (t,dt,dt_last_done,status,steps) on %d cases" % len(cases),
-                   corr_ok and not bad_total, "mismatching: %s" % [cases[b] for b in bad_total[:4]])
+                   corr_ok and not bad_total, "mismatching: %s" % [jsafe(cases[b]) for b in bad_total[:4]])
     ctx.extra["input_distribution"] = {str(k): v for k, v in sorted(hist.items(), key=lambda kv: -kv[1])[:50]}
 
     # ------------------------------------------------------------------ searcher: the contract on the library
@@ -162,6 +192,8 @@ def run(ctx):
             if nsteps >= 1: c["events"] = [(nsteps, c["events"][0][1])]
         if integ in ("ias15", "bs", "mercurius", "trace") and any(abs(a - b) > 20 for a, b in zip([c["t0"]] + c["targets"], c["targets"])):
             continue
+        if c["gone"] is not None and rng.random() < 0.6 and integ in fixed and abs(tm - c["t0"]) < 20:
+            c["gone"] = run_lib(rebound, dict(c, events=[], gone=None, targets=c["targets"][:1]))[2]
         sim = new_sim(rebound, integ, c["t0"], c["dt"])
         ev = dict(c["events"])
         for ci, tm in enumerate(c["targets"]):
@@ -176,11 +208,15 @@ def run(ctx):
             steps0 = sim.steps_done
             t_before, dt_before = sim.t, sim.dt
             evc = ev if ci == 0 else {}
-            capo = (int(abs(tm - t_before) / abs(dt_before)) + 12) if (integ in fixed and dt_before != 0) else 200000
-            def hb(simp, ev=evc, ts=ts, steps0=steps0, capo=capo):
+            gone = c.get("gone") if ci == 0 else None
+            deg = dt_before != dt_before or tm != tm or (dt_before == 0 and tm != t_before)
+            capo = 12 if deg else (int(abs(tm - t_before) / abs(dt_before)) + 12) if (integ in fixed and dt_before != 0) else 200000
+            def hb(simp, ev=evc, ts=ts, steps0=steps0, capo=capo, gone=gone):
                 s = simp.contents
                 ts.append(s.t)
                 kk = s.steps_done - steps0
+                if gone is not None and kk >= gone and s.N > 0:
+                    rebound.clibrebound.reb_simulation_remove_all_particles(simp)
                 if kk in ev and s._status < 0:
                     s._status = ev[kk]
                 elif kk > capo and s._status < 0:
@@ -196,6 +232,14 @@ def run(ctx):
             sign = 1.0 if tm > t_before else -1.0
             dt_user = math.copysign(dt_before, sign) if tm != t_before else dt_before
             why = None
+            if deg:
+                if sim.steps_done != steps0 or not (sim.t == t_before) or st not in (1, 2) or (st == 2 and gone != 0):
+                    why = ("integrate() with degenerate arguments (dt=%r, tmax=%r, t=%r) must return an error at once: status %d, %d steps, t=%r"
+                           % (dt_before, tm, t_before, st, sim.steps_done - steps0, sim.t))
+                if why:
+                    fails.append({"why": why, "case": c, "call": ci, "before": {"t": t_before, "dt": repr(dt_before)},
+                                  "final": {"t": sim.t, "dt": repr(sim.dt), "status": st, "steps": sim.steps_done - steps0}})
+                break
             if st == 98:
                 why = "integrate did not reach the target within %d steps (|tmax-t|/|dt| = %.3g)" % (capo, abs(tm - t_before) / abs(dt_before or 1))
             if st == 0:
@@ -206,7 +250,7 @@ def run(ctx):
                 elif not c["exact"] and tm != t_before and integ in fixed:
                     if not (sign * sim.t >= sign * tm and sign * (sim.t - tm) < abs(dt_before) * (1 + 1e-9)):
                         why = "non-exact finishing: t=%r not in [tmax, tmax+|dt|)" % sim.t
-            if tm == t_before and st == 0:
+            if tm == t_before and st == 0 and gone is None:
                 p1 = [(p.x, p.y, p.z, p.vx, p.vy, p.vz) for p in sim.particles]
                 if sim.t != t_before or sim.dt != dt_before or sim.steps_done != steps0 or any(a != b for a, b in zip(p0, p1)):
                     why = "integrate to the current time is not a no-op"
@@ -219,8 +263,17 @@ def run(ctx):
                 # (an event scheduled after the time-based exit legitimately never happens: nsteps_ < kk)
                 if nsteps_ > kk:
                     why = "an exit condition raised at step boundary %d was passed over: %d steps taken, status %d" % (kk, nsteps_, st)
-                elif nsteps_ == kk and st != evc[kk]:
+                elif nsteps_ == kk and st != evc[kk] and not (gone == kk and st == 2):   # both at one boundary: either names it
                     why = "status %d does not name the exit condition %d raised at the boundary where the run stopped" % (st, evc[kk])
+            if gone is not None:
+                nsteps_ = sim.steps_done - steps0
+                # (a loss scheduled after the time-based exit never happens: nsteps_ < gone)
+                if nsteps_ > gone:
+                    why = "the simulation was empty at step boundary %d but %d steps were taken (status %d)" % (gone, nsteps_, st)
+                elif nsteps_ == gone and st != 2:
+                    why = "the simulation lost its last particle at the boundary where the run stopped, but the status is %d, not NO_PARTICLES" % st
+                elif nsteps_ < gone and st == 2:
+                    why = "NO_PARTICLES reported at boundary %d, before the particles were removed (boundary %d)" % (nsteps_, gone)
             if why:
                 fails.append({"why": why, "case": c, "call": ci, "before": {"t": t_before, "dt": dt_before},
                               "final": {"t": sim.t, "dt": sim.dt, "status": st, "steps": sim.steps_done - steps0}})
@@ -251,11 +304,11 @@ def run(ctx):
                           "cuts": cuts, "end": end, "sign": sign})
     if fails:
         f = fails[0]
-        ctx.violation("integrate-contract:" + f["why"].split(":")[0], f, True, f["why"])
+        ctx.violation("integrate-contract:" + f["why"].split(":")[0], jsafe(f), True, f["why"])
     ctx.rule = ("coincidence-biased (t0, dt, tmax, exact_finish_time, boundary events, split targets): tmax = t0 + k*dt exactly / +-1,2 ulp, "
                 "dt larger than the interval, tmax = t0, tmax = 0, both directions, dt sign against direction; distinct by (integrator, exact, status, steps, #targets)")
     ctx.assumptions += [
-        "PAUSED/SCREENSHOT states, usleep, MPI, tmax=INFINITY and N==0 are outside the model (N==0 -> NO_PARTICLES is a separate branch)",
+        "PAUSED/SCREENSHOT states, usleep, MPI and tmax=INFINITY are outside the model; N==0 is modelled as a history (the boundary at which the last particle vanishes), user ODEs without particles are not",
         "dt = -0.0 excluded (copysign(1.,dt) modelled as dt<0 ? -1 : 1)",
         "termination in binary64 is not a theorem: the model runs on fuel and reports exhaustion; the R theorems give the step count",
         "adaptive integrators (IAS15, BS) and hybrid rejections are covered by the library-only contract oracle, not by the stepper models",
